@@ -542,4 +542,26 @@ Section WithMac.
   (* ClientSequence::done *)
   Definition cseq_done (s : cseq) : outcome unit :=
     if cs_unsigned s =? 0 then Ok tt else Err VE_TOOMANYUNSIGNED.
+
+  (* net/client/tsig.rs: TsigClient (Transaction for SendRequest, Sequence for
+     SendRequestMulti) and Request::validate_response.  Every response the
+     upstream delivers goes through TsigClient::answer, the end of the stream
+     (None) through TsigClient::done (T1 client_wrapper_validates_all pins the
+     shape of the function: no path around the validation). *)
+  Inductive wclient := WTransaction (c : ctx) | WSequence (s : cseq).
+
+  Definition wrapper_validate (k : key) (cl : wclient) (resp : option bytes) (now : N)
+    : wclient * outcome (option bytes) :=
+    match resp with
+    | None =>
+        (cl, match cl with
+             | WTransaction _ => Ok None
+             | WSequence s => do _ <- cseq_done s; Ok None
+             end)
+    | Some m =>
+        match cl with
+        | WTransaction c => (cl, do out <- client_answer k c m now; Ok (Some out))
+        | WSequence s => let '(s', r) := cseq_answer k s m now in (WSequence s', do out <- r; Ok (Some out))
+        end
+    end.
 End WithMac.
